@@ -131,6 +131,22 @@ func All() []Op {
 				paths = append(paths, filepath.Base(s.GetPath())+":"+fmt.Sprint(len(s.Devices)))
 			}
 			sort.Strings(paths)
+			// a result handed out belongs to the caller: it must not change when the cache moves on
+			// (another lock operation gives a concurrent refresh the chance to run in between)
+			held := c.GetVendorSpecs("vendor.com")
+			var before []string
+			for _, s := range held {
+				before = append(before, fmt.Sprintf("%p:%s:%d", s, s.GetPath(), len(s.Devices)))
+			}
+			_ = c.GetSpecDirectories()
+			_ = c.GetSpecDirectories()
+			var after []string
+			for _, s := range held {
+				after = append(after, fmt.Sprintf("%p:%s:%d", s, s.GetPath(), len(s.Devices)))
+			}
+			if !eq(before, after) {
+				return Result{Op: "GetVendorSpecs", Obs: fmt.Sprint(v, paths), Bad: fmt.Sprintf("the slice returned by GetVendorSpecs changed after it was returned (%d entries; other Spec objects or contents)", len(before))}
+			}
 			r := Result{Op: "GetVendorSpecs", Obs: fmt.Sprint(v, paths)}
 			want := []string{"keep0.json:2", "keep1.json:1", "multi.json:3"}
 			if !eq(v, []string{"vendor.com"}) || !eq(paths, want) {
